@@ -82,8 +82,24 @@ def run_login(run, rng, pv, order, threshold, terminal, server_id, auth,
     # surviving into the next connection would break the judged login.
     prior = rng.random() < 0.25
 
+    # ... and half of those first connections *fail* while an answer is still
+    # queued (plugin request and login disconnect arrive in one segment): a
+    # queue outliving its connection would put that answer in front of the
+    # next connection's handshake
+    prior_fails = prior and pv >= 385 and rng.random() < 0.5
+
     def prior_handler(io):
         scripts.read_handshake(io)
+        if prior_fails:
+            io.recv_frame()                              # login start
+            qid, qp = codec.encode('plugin_request', {
+                'message_id': 7, 'channel': 'vf:old', 'data': b''})
+            did, dp = codec.encode('login_disconnect',
+                                   {'reason': '{"text":"first fails"}'})
+            io.send_raw(io.encode_frame(qid, qp) + io.encode_frame(did, dp))
+            io.half_close()
+            io.drain(5.0)
+            return
         scripts.login_offline(io, pv, 5, codec, encrypted=True)
         did, dp = codec.encode('play_disconnect', {'reason': '"first"'})
         io.send_frame(did, dp)
@@ -161,9 +177,21 @@ def run_login(run, rng, pv, order, threshold, terminal, server_id, auth,
                 io.send_frame(cid, cp)
                 io.enable_compression(threshold)
             else:
+                data = b'\x01\x02' * rng.randrange(0, 40)
+                if io.threshold is not None and 8 < io.threshold <= 4096:
+                    # a frame whose payload is exactly `threshold` bytes: a
+                    # vanilla peer compresses it (size >= threshold)
+                    qid, base = codec.encode('plugin_request', {
+                        'message_id': plugin_ids[step], 'channel': 'vf:test',
+                        'data': b''})
+                    pad = io.threshold - len(base) - 1
+                    if pad >= 0:
+                        data = bytes(rng.getrandbits(8) for _ in range(pad))
+                        state['exact_threshold_frames'] = state.get(
+                            'exact_threshold_frames', 0) + 1
                 qid, qp = codec.encode('plugin_request', {
                     'message_id': plugin_ids[step], 'channel': 'vf:test',
-                    'data': b'\x01\x02' * rng.randrange(0, 40)})
+                    'data': data})
                 io.send_frame(qid, qp)
                 pending += 1
         if terminal[0] == 'success':
@@ -257,7 +285,11 @@ def run_login(run, rng, pv, order, threshold, terminal, server_id, auth,
             conn.connect()
             if not pc.wait_idle(conn, 25.0):
                 return 'first session: threads alive'
-            if rec.exceptions or rec.exits != 1:
+            if prior_fails:
+                if len(rec.exceptions) != 1:
+                    return 'first (failing) session: %r' % (rec.exceptions,)
+                run.count('logins.after_failed_connection')
+            elif rec.exceptions or rec.exits != 1:
                 return 'first session did not end cleanly: %r' % (
                     rec.exceptions[:1],)
             del rec.exceptions[:]
@@ -279,6 +311,8 @@ def run_login(run, rng, pv, order, threshold, terminal, server_id, auth,
             if errs[0][1] == 'script':
                 return 'server script error: %r' % (errs[:1],)
         run.count('logins')
+        run.count('frames_of_exactly_threshold_bytes',
+                  state.get('exact_threshold_frames', 0))
 
         def bad(key, what, **extra):
             run.violation(key, what, dict(w, **extra))
